@@ -261,9 +261,50 @@ theorem C07_close_op_fails_waiters_once (cfg : Cfg) (ops : List Op) (c : Nat)
   obtain ⟨hi, he⟩ := inv_runOps (cfg := cfg) ops St.init (inv_init cfg) rfl
   exact close_once hi he hc
 
+/-- `Open()` of the pool at any point, with a first connection that opens or fails to: either
+    the pool ends Closed (it was closed already, or `_Release` shut it down on the connection
+    that failed to open) and the open fails with ServiceClosedError, or the pool ends Open and no
+    exception escapes.  (All other theorems hold across such operations as well: no hypothesis
+    on the operation list is left.) -/
+theorem C07_open_fails_iff_closed (cfg : Cfg) (ops : List Op) (ok : Bool) :
+    ((step cfg (runOps cfg St.init ops) (.openPool ok)).1.pstate = .closed ∧
+      Ev.raised "ServiceClosedError" ∈ (step cfg (runOps cfg St.init ops) (.openPool ok)).2.evs) ∨
+    ((step cfg (runOps cfg St.init ops) (.openPool ok)).1.pstate = .opened ∧
+      ∀ e ∈ (step cfg (runOps cfg St.init ops) (.openPool ok)).2.evs, isRaised e = false) := by
+  obtain ⟨hi, he⟩ := inv_runOps (cfg := cfg) ops St.init (inv_init cfg) rfl
+  generalize runOps cfg St.init ops = s at *
+  have hok := (stepSt_ok (cfg := cfg) (m := ⟨s.base, s.pstate.code, s.tasks, true⟩) (.openPool ok) hi
+    ⟨rfl, rfl, rfl, fun h => by simp at h, he⟩ rfl).raise
+  have hstep : stepSt cfg s (.openPool ok) = openEnd (match get cfg s ok with
+     | (s1, .sink sid _) => release cfg s1 sid
+     | (s1, _) => s1) := rfl
+  show ((stepSt cfg s (.openPool ok)).pstate = .closed ∧ _ ∈ (stepSt cfg s (.openPool ok)).evs) ∨
+    ((stepSt cfg s (.openPool ok)).pstate = .opened ∧ ∀ e ∈ (stepSt cfg s (.openPool ok)).evs, isRaised e = false)
+  rw [hstep] at hok ⊢
+  generalize (match get cfg s ok with
+     | (s1, .sink sid _) => release cfg s1 sid
+     | (s1, _) => s1) = x at hok ⊢
+  unfold openEnd at hok ⊢
+  by_cases hp : x.pstate = .closed
+  · rw [if_pos hp]; left; exact ⟨hp, by simp [St.emit]⟩
+  · rw [if_neg hp] at hok ⊢
+    right
+    refine ⟨rfl, ?_⟩
+    unfold clRaise at hok
+    cases hf : List.filter isRaised (obsOf { x with pstate := PState.opened }).evs with
+    | nil =>
+      intro e he'
+      have : e ∉ List.filter isRaised (obsOf { x with pstate := PState.opened }).evs := by rw [hf]; simp
+      rw [List.mem_filter] at this
+      by_contra hne
+      exact this ⟨he', by simpa using hne⟩
+    | cons a l =>
+      rw [hf] at hok
+      simp [obsOf, PState.code] at hok
+
 /-- the model's history satisfies the executable specification — the predicate the harness
     evaluates on the implementation's observations — for every configuration and every
-    operation list in which `Open()` is only exercised with a connection that opens. -/
+    operation list (`wf` no longer excludes anything). -/
 theorem C07_model_satisfies_spec (cfg : Cfg) (ops : List Op) (hwf : comp.wf cfg ops = true) :
     comp.spec cfg (comp.modelTrace cfg ops) = .ok :=
   (spec_trace (cfg := cfg) ops St.init {} (inv_init cfg) coupled_init hwf).1
@@ -317,6 +358,14 @@ example :
       [.rel 0] ∧
     (step ⟨0, 2, 3⟩ (step ⟨0, 2, 3⟩ (runOps ⟨0, 2, 3⟩ St.init ops) (.opened 0 true)).1 (.respond 0)).1.tasks =
       [0] := by
+  decide
+
+/-- a first `Open()` whose connection fails to open: the pool shuts down, gives the slot back,
+    stays Closed, and the open fails. -/
+example :
+    (step ⟨1, 2, 1⟩ St.init (.openPool false)).2 =
+      ⟨[.created 0 false, .rel 0, .raised "ServiceClosedError"], 0, [], [], [], 4⟩ ∧
+    comp.wf ⟨1, 2, 1⟩ [.openPool false, .request true false] = true := by
   decide
 
 end Scales.Watermark
